@@ -14,7 +14,10 @@ RULE = ("direct: (a) exhaustive multisets of <= 3 (quick) / <= 5 (thorough) read
         "preferred_source_ids in {None, {1}, {1,2}, {7}}, k in 1..6, bridging on/off) through the real "
         "whatshap.readselect.readselection with the decision-trace hook. CLI: `whatshap phase` on harness.synth data "
         "(1 sample or father/mother/child trio with --ped, --internal-downsampling 2..8, 80..220 reads per sample, paired "
-        "fraction 0/0.3/0.7, optional phased VCF as extra phase input = preferred source) with the solver-instance trace. "
+        "fraction 0/0.3/0.7, optional phased VCF as extra phase input = preferred source) with the solver-instance trace; "
+        "plus a FEW-READS stream: trios / quartets / single samples where a member has c reads all stacked on the same 2-3 "
+        "variants, every c in 1..k+2 for k in {2..8, 15}, once with all members at c and once mixed with members having many "
+        "reads (total span <= k in Coq; a member keeps >= min(c, per-sample cap) reads; a crash of whatshap phase is a violation). "
         "A direct case is non-trivial if at least one read is left out; a CLI record is non-trivial if some position "
         "reaches the per-sample cap. distinct = distinct (reads, k, preferred, bridging) / (spec, chromosome).")
 TRUSTED = [
@@ -376,7 +379,114 @@ def run(ctx):
     for i in range(ctx.n(28, 220)):
         specs.append(phase_cli.make_spec(rng, trio=(i % 3 == 0), tag="PS", low_cov_gaps=False))
     check_cli(ctx, specs, "cli")
+    check_cli_stacked(ctx, gen_stacked_specs(ctx), "st")
     check_cap_limit(ctx)
+
+
+# ---- few reads per member, stacked on the same variants (the per-sample cap must still be applied) -------------
+STACK_CHECKS = {
+    "L1": "fun c => let '(k, f, members, positions, expect) := c in negb (f <=? k) || family_cap_ok k members positions",
+    # maximality at the CLI: a member whose n reads all span the same variants keeps min(n, cap) of them at least
+    "L1max": "fun c => let '(k, f, members, positions, expect) := c in "
+             "forallb (fun me => match snd me with Some n => Nat.min n (per_sample_cap k f) <=? length (fst me) | None => true end) "
+             "(combine members expect)",
+    "L2": "fun c => let '(k, f, members, positions, expect) := c in "
+          "forallb (fun rs => forallb (fun p => zspan_count rs p <=? per_sample_cap k f) positions) members",
+}
+
+
+def gen_stacked_specs(ctx):
+    rng = ctx.rng
+    specs = []
+    ks = [2, 3, 4, 5, 6, 7, 8, 15]
+    i = 0
+    for k in ks:
+        for c in range(1, k + 3):
+            fam = "trio" if i % 3 != 2 else "quartet"
+            nmem = 3 if fam == "trio" else 4
+            i += 1
+            # every member has exactly c stacked reads
+            specs.append(phase_cli.make_stacked_spec(rng, k, [c] * nmem, family=fam))
+            # mixed: some members few (c, or another small count), some with many ordinary reads
+            counts = [rng.choice([c, c, None, rng.randint(1, k + 2)]) for _ in range(nmem)]
+            counts[rng.randrange(nmem)] = c
+            specs.append(phase_cli.make_stacked_spec(rng, k, counts, family=fam, many=rng.randint(40, 90)))
+        for c in sorted({1, max(1, k - 1), k, k + 1, k + 2}):
+            specs.append(phase_cli.make_stacked_spec(rng, k, [c], family="single"))
+    if not ctx.quick:
+        for _ in range(300):
+            k = rng.choice(ks)
+            fam = rng.choice(["trio", "quartet", "single"])
+            nmem = {"trio": 3, "quartet": 4, "single": 1}[fam]
+            counts = [rng.choice([None, rng.randint(1, k + 2), rng.randint(1, k + 2)]) for _ in range(nmem)]
+            if all(c is None for c in counts):
+                counts[0] = rng.randint(1, k + 2)
+            specs.append(phase_cli.make_stacked_spec(rng, k, counts, family=fam, many=rng.randint(30, 120)))
+    return specs
+
+
+def check_cli_stacked(ctx, specs, label):
+    wd = workdir(ctx)
+
+    def one(i_spec):
+        i, spec = i_spec
+        return phase_cli.run_phase(ctx, spec, os.path.join(wd, f"{label}{i}"), timeout=240)
+    with ThreadPoolExecutor(max_workers=8) as ex:
+        results = list(ex.map(one, enumerate(specs)))
+    terms, owners = [], []
+    for spec, res in zip(specs, results):
+        fam = phase_cli.family_samples(spec)
+        counts = spec["stacked"]["counts"]
+        ctx.tally(f"stacked.family={spec['family']}")
+        if res["rc"] != 0:
+            if "GrayCodes" in res["stderr"] or res["rc"] < 0 or res["rc"] == 124:
+                sig, why = "phase:solver-abort-over-cap", ("the solver aborted / was killed / timed out (GrayCodes assertion, signal or "
+                                                           "timeout: more reads span a column than the exponential table supports)")
+            else:
+                sig, why = "readselect:cli-crash", "whatshap phase failed"
+            ctx.count(("stacked", repr(spec)), nontrivial=True)
+            ctx.violation(sig, f"{why} (rc={res['rc']}) with --internal-downsampling {spec['k']}, family {spec['family']}, reads per "
+                          f"member {counts} stacked on the same variants: {res['stderr'][-300:]}", {"kind": "stacked", "spec": spec})
+            continue
+        if not res["trace"]:
+            ctx.violation("readselect:cli-crash", f"no trace record written for {spec}", {"kind": "stacked", "spec": spec})
+            continue
+        for term, rec, binding in cli_terms(res, spec):
+            order = rec["family"]
+            expect = "[" + "; ".join("None" if counts[fam.index(s)] is None else f"(Some {counts[fam.index(s)]}%nat)" for s in order) + "]"
+            terms.append(term[:-1] + ", (" + expect + " : list (option nat)))")
+            owners.append((spec, rec))
+            few = [c for c in counts if c is not None]
+            ctx.count(("stacked", repr(spec)), nontrivial=len(order) > 1 and sum(few) > spec["k"] // len(order))
+            ctx.tally("stacked.records")
+            ctx.tally(f"stacked.k={spec['k']}")
+            ctx.tally("stacked.selected_reads", len(rec["reads"]))
+            if len(order) >= 3 and few and all(c <= spec["k"] for c in few) and sum(few) > spec["k"]:
+                ctx.tally("stacked.each_member_within_k_but_family_above_k")
+    if not terms:
+        return
+    failing, errors = eval_checks("C07s", ZHEADER, STACK_CHECKS, terms, shard=40)
+    if errors:
+        raise RuntimeError("coq evaluation failed: " + errors[0][1])
+    for i in failing["L1"]:
+        spec, rec = owners[i]
+        ctx.violation("readselect:family-cap", f"reads handed to the solver span an accessible position more than "
+                      f"--internal-downsampling={spec['k']} times in total: family {rec['family']} with {spec['stacked']['counts']} reads "
+                      f"per member stacked on the same variants (the per-sample cap max(1, k // |family|) was not applied?)",
+                      {"kind": "stacked", "spec": spec})
+    for i in failing["L1max"]:
+        spec, rec = owners[i]
+        ctx.violation("readselect:cli-maximal", f"a member with n stacked reads keeps fewer than min(n, per-sample cap) of them: "
+                      f"k={spec['k']}, family {rec['family']}, reads per member {spec['stacked']['counts']}, kept "
+                      f"{[sum(1 for r in rec['reads'] if r['sample_id'] == rec['numeric_ids'][s]) for s in rec['family']]}",
+                      {"kind": "stacked", "spec": spec})
+    if failing["L2"]:
+        bad = [owners[i] for i in failing["L2"]]
+        ctx.disagreements_checked += len(bad)
+        ctx.l2_disagreement("per-sample cap max(1, k / |family|) at every accessible position (CLI, stacked reads)",
+                            [{"spec": s, "chromosome": r["chromosome"]} for s, r in bad])
+    spec, rec = owners[-1]
+    ctx.sample({"stacked_spec": spec, "family": rec["family"], "n_selected_reads": len(rec["reads"])})
 
 
 def check_cap_limit(ctx):
@@ -403,6 +513,8 @@ def replay(ctx, data):
         check_direct(ctx, [(reads, data["k"], data["pref"], data["bridging"])], "replay")
     elif data.get("kind") == "cli":
         check_cli(ctx, [data["spec"]], "replay")
+    elif data.get("kind") == "stacked":
+        check_cli_stacked(ctx, [data["spec"]], "replay")
     elif data.get("kind") == "cap-limit":
         check_cap_limit(ctx)
     else:
